@@ -22,6 +22,11 @@ CHECKS = {
         text="C10_run_is_spec proves that the modelled loop equals a closed-form specification (trace of hooks and solves, return value, which solve's results are exposed) for every goal list and every success/failure oracle; C10_priorities_* prove ascending, duplicate-free priorities made of exactly the non-empty goals; the real optimize() of the multi-pass, keep-soft and both single-pass variants is driven by a scripted casadi_solver over exhaustive failure patterns and compared with the model and the specification evaluated in Coq.",
         note="Trusted: Coq kernel + vm_compute; scripted solver standing in for IPOPT (public casadi_solver option); the user hook flag skip_priority is not modelled. No axioms.",
         ref="DESIGN.md §5 C10"),
+    "C19": dict(
+        technique="Coq proof (induction over strictly increasing knot vectors; case analysis over bound kinds) + correspondence check of the Gallina models of interpolate / merge_bounds / interp1d against the code via vm_compute",
+        text="Theorems C19_exact_at_knots, C19_between_knots, C19_fills_outside, C19_early_exit_sound, C19_arraywise_columnwise, C19_numeric_eq_symbolic about an executable model of OptimizationProblem.interpolate and casadi interp1d for all knot vectors, values, query points, modes and fills; C19_merge_pointwise / C19_merge_operators / C19_merge_rejects_symmetric about a model of merge_bounds for all kinds and shapes. The models are run against the real methods (and the real CasADi interp1d) on generated inputs each run; disagreements are judged against a reference written from the property text.",
+        note="Trusted: Coq kernel + vm_compute; harness generators and printers; binary64 rounding in numpy.interp is outside the exact model (linear mode between knots compared to 1e-9, everything else exactly on the float's rational value); NaN function values are not generated. No axioms. A genuine defect (int/float scalar mix rejected by an assertion) was repaired in /repo cfdffd6.",
+        ref="DESIGN.md §5 C19"),
 }
 
 PENDING_REASON = "check not built yet (work in progress; see DESIGN.md §7 build order) — not claimed until its Coq model, theorems and correspondence check run clean on the unchanged tree"
